@@ -141,6 +141,30 @@ theorem leafOf_eq_refFind (es : List Entry) (k : List Nat) : Trie.leafOf es k = 
         exact ih acc hacc
   exact key es none List.Pairwise.nil
 
+theorem mem_foldl_insRepl_sub (l acc : List Phrase) {x : Phrase} (h : x ∈ l.foldl Trie.insRepl acc) : x ∈ acc ∨ x ∈ l := by
+  induction l generalizing acc with
+  | nil => exact Or.inl h
+  | cons p l ih =>
+    rcases ih _ h with h1 | h1
+    · rcases Trie.mem_insRepl.mp h1 with e | e
+      · exact Or.inr (by rw [e]; exact List.mem_cons_self)
+      · exact Or.inl e.1
+    · exact Or.inr (List.mem_cons_of_mem _ h1)
+
+theorem mem_leafOf {es : List Entry} {k : List Nat} {p : Phrase} (h : p ∈ Trie.leafOf es k) : (k, p) ∈ es := by
+  unfold Trie.leafOf at h
+  rcases mem_foldl_insRepl_sub _ _ h with h1 | h1
+  · cases h1
+  · obtain ⟨e, he, rfl⟩ := List.mem_map.mp h1
+    rw [List.mem_filter] at he
+    have : e.1 = k := by simpa using he.2
+    rw [← this]
+    exact he.1
+
+theorem mem_refFind {es : List Entry} {k : List Nat} {p : Phrase} (h : p ∈ (refFind es k).getD []) : (k, p) ∈ es := by
+  rw [← leafOf_eq_refFind] at h
+  exact mem_leafOf h
+
 /-! ## keys of `Trie.build`: strictly ascending -/
 
 theorem keyLt_irrefl (a : List Nat) : Trie.keyLt a a = false := by
